@@ -89,8 +89,9 @@ def build(rng, members: list[dict], *, data_order: str = "shuffle", align: int =
             # a pax extended header in front of the member (records such as mtime, comment, size, path)
             # a size record (value None) repeats the member's actual size
             rec = pax_records([(k_, str(len(m.get("data", b""))) if v_ is None else v_) for k_, v_ in m["pax"]])
-            pre.append(header(b"PaxHeaders/" + nb[:80], len(rec), b"x", visor=m.get("visor_pax", False)))
-            pre.append(rec.ljust(-(-len(rec) // 512) * 512, b"\0"))
+            paxh = [header(b"PaxHeaders/" + nb[:80], len(rec), b"x", visor=m.get("visor_pax", False)), rec.ljust(-(-len(rec) // 512) * 512, b"\0")]
+            # extension headers stack in either order: long name then pax records, or pax records then long name
+            pre = (paxh + pre) if m.get("pax_first") else (pre + paxh)
         for p in pre:
             hdrs.append(p)
         if m.get("typeflag") == b"\0" and nb.endswith(b"/"):
